@@ -1,5 +1,6 @@
 #![feature(rustc_private)]
 extern crate rustc_driver;
+extern crate rustc_span;
 // Native replay / translator-validation driver. Reads one JSON request per line on stdin,
 // calls the real kernel through the cfg-guarded hooks, prints one JSON reply per line.
 use rustfmt_nightly::verif_hooks as h;
@@ -125,6 +126,17 @@ fn handle(req: &Value) -> Value {
                 req["formatted"].as_str().unwrap_or(""),
             );
             json!({"out": out})
+        }
+        "source_file_src" => {
+            // environment contract used by C08: what rustc's source map keeps as the text of a file
+            use rustc_span::source_map::{FilePathMapping, SourceMap};
+            let text = req["text"].as_str().unwrap_or("").to_owned();
+            let src = rustc_span::create_default_session_globals_then(|| {
+                let sm = SourceMap::new(FilePathMapping::empty());
+                let sf = sm.new_source_file(rustc_span::FileName::Custom("verif".to_owned()), text);
+                sf.src.as_ref().map(|s| s.to_string())
+            });
+            json!({"src": src})
         }
         _ => json!({"error": format!("unknown op {op}")}),
     }
